@@ -46,6 +46,15 @@ CLAIMED = {
     "C22": ("exploration", "deterministic simulation with per-peer limit knobs for whole histories plus per-run boundary configurations (size-1, size, size+1, 0, 2x, max) against an unlimited twin",
             "Hard mode rejects with the matching size error and returns previous data iff a size exceeds its limit; soft mode raises exactly the exceeded flags and is otherwise identical (decoded) to the unlimited twin run.",
             "Twin comparison is per run; soft-limited peers also run whole histories under their knobs."),
+    "C01": ("fault_enumeration", "deterministic simulation with a Byzantine participant and a corrupting transport against history-produced previous data: tamper catalog, wholesale re-attribution with structural mutation, byte corruption; crash, abort and heap monitors on every invocation and on the other public entry points",
+            "Every interpreter invocation of every sampled history must return (no panic, no worker death, no watchdog kill) and stay within peak heap <= 64*(input bytes)+16 MiB; to_human_readable_data, parse and beautify are called on everything that crosses the wire under the same oracle.",
+            "Known findings F7 (non-JSON raw value) and F15 (non-UTF-8 CID passing rkyv validation) are classified by panic location / message. Random-text fuzzing of the parser is not this family's job and is not claimed."),
+    "C14": ("fault_enumeration", "deterministic simulation with a Byzantine participant applying a tamper catalog (single ops and pairs) to data it legitimately holds, re-signing only its own result set; must-reject oracle, untampered-twin positional comparison and a whole-history content-id backstop",
+            "Ops that alter values, content ids, tetraplets, argument hashes, signatures or the particle id of another peer's results must be rejected with the previous data returned; for ops that pass verification the receiver's output is compared position by position with a twin run on the untampered message; no honest peer's data may ever attribute to an honest peer a content id that peer did not produce.",
+            "Catalog-based: covers the listed op kinds, not arbitrary forgeries; canon results are covered by the backstop and signature ops only."),
+    "C15": ("fault_enumeration", "deterministic simulation with a lost-durable-writes (store rollback) fault that makes an honest-code peer equivocate; independent per-peer multiset comparison of previous and current data",
+            "If some peer's signed result multisets in previous and current data are incomparable the run must be rejected in preparation with the previous data returned; otherwise the merged data keeps for every other peer the signature that came with its larger set and that signature verifies over the merged data's multiset.",
+            "Equivocation arises only when the rolled-back peer continues on a diverging input; counted in evidence (c15_equivocations_rejected)."),
 }
 
 NA = {
